@@ -68,3 +68,9 @@ MUTANTS = [
      "            match_result = None\n            for match_result in regex.finditer(\n                pattern=self._regex_rule, string=self._all_instructions, timeout=self.timeout_regex\n            ):\n                pass"),
     ("c20-macros-reversed", "C20", MN, "        macros=args.macros,", "        macros=sorted(args.macros) if args.macros else args.macros,"),
 ]
+
+MUTANTS += [
+    ("c11-stream-truncated", "C11", CO, 'self._all_instructions = "".join(self._all_instructions_list)', 'self._all_instructions = "".join(self._all_instructions_list[:10000])'),
+    ("c11-finditer-limited", "C11", CO, "            for match_result in match_iterator:\n                if match_result:", "            for n_hit, match_result in enumerate(match_iterator):\n                if match_result and n_hit < 3:"),
+    ("c17-deref-two-values-silent", "C17", "jasm_regex/tree_generators/pattern_node_implementations/deref.py", '                raise ValueError("Children list must contain exactly one element")', '                pass'),
+]
